@@ -1302,16 +1302,6 @@ impl Ctx {
                 self.rep.bump(&format!("parse_error={}", msg.chars().take(40).collect::<String>()));
                 if let Err(why) = span_inside(src, &sp) {
                     fail = Some(("C12:compile-error-outside-text".into(), det(&why, json!({"span": span_s(&sp), "error": msg}))));
-                } else if sp.start.line as usize != expect_line
-                    && msg == "expected catch expression after try"
-                    && (sp.start.line as usize) < expect_line
-                    && self.open.iter().any(|x| x == "F-C12-2")
-                {
-                    // F-C12-2 (call site parser.rs consume_try_expression -> self.error(ExpectedCatch)):
-                    // the only producer of this message reports the span of the last consumed token
-                    // (the end of the try body) instead of the offending token
-                    *self.known_hits.entry("F-C12-2".into()).or_insert(0) += 1;
-                    return if quiet { Some("C12:compile-error-line".into()) } else { None };
                 } else if sp.start.line as usize != expect_line {
                     fail = Some((
                         "C12:compile-error-line".into(),
